@@ -342,10 +342,7 @@ fn eval_step_expr(
 ) -> error::Result<Vec<dom::XmlNode>> {
     match step {
         expr::Step::Current => Ok(vec![node]),
-        expr::Step::Parent => match node {
-            dom::XmlNode::Document(_) => Ok(vec![]),
-            _ => Ok(vec![node.parent_node().unwrap()]),
-        },
+        expr::Step::Parent => Ok(parent(&node).into_iter().collect()),
         expr::Step::Test(axis, test, predicate) => {
             eval_axis_node_test(axis, test, predicate, node, context)
         }
@@ -374,7 +371,7 @@ fn eval_axis_node_test(
             expr::AxisName::Following => following(node),
             expr::AxisName::FollowingSibling => following_sibling(node),
             expr::AxisName::Namespace => namespace(node),
-            expr::AxisName::Parent => vec![node.parent_node().unwrap()],
+            expr::AxisName::Parent => parent(&node).into_iter().collect(),
             expr::AxisName::Preceding => preceding(node),
             expr::AxisName::PrecedingSibling => preceding_sibling(node),
             expr::AxisName::Current => vec![node],
@@ -543,13 +540,22 @@ fn eval_func_expr(
 
 // -----------------------------------------------------------------------------------------------
 
+/// The parent of a node in the XPath data model: the element for an attribute, nothing for
+/// the root (and for a namespace node, whose element this API cannot tell).
+fn parent(node: &dom::XmlNode) -> Option<dom::XmlNode> {
+    match node {
+        dom::XmlNode::Attribute(v) => v.owner_element().map(|e| e.as_node()),
+        _ => node.parent_node(),
+    }
+}
+
 fn ancestor(node: dom::XmlNode) -> Vec<dom::XmlNode> {
     let mut nodes = vec![];
 
-    let mut parent = node.parent_node();
-    while let Some(p) = parent {
+    let mut current = parent(&node);
+    while let Some(p) = current {
         nodes.push(p.clone());
-        parent = p.parent_node();
+        current = parent(&p);
     }
 
     nodes
@@ -602,11 +608,35 @@ fn descendant_and_self(node: dom::XmlNode) -> Vec<dom::XmlNode> {
     nodes
 }
 
+/// All nodes after the context node in document order, excluding its descendants and
+/// excluding attribute and namespace nodes.
 fn following(node: dom::XmlNode) -> Vec<dom::XmlNode> {
     let mut nodes = vec![];
 
-    for n in following_sibling(node) {
-        nodes.append(&mut descendant_and_self(n));
+    let mut current = node;
+    if matches!(
+        current,
+        dom::XmlNode::Attribute(_) | dom::XmlNode::Namespace(_)
+    ) {
+        // What follows an attribute starts with the content of its element.
+        match parent(&current) {
+            Some(element) => {
+                nodes.append(&mut descendant(element.clone()));
+                current = element;
+            }
+            None => return nodes,
+        }
+    }
+
+    loop {
+        for n in following_sibling(current.clone()) {
+            nodes.append(&mut descendant_and_self(n));
+        }
+
+        match parent(&current) {
+            Some(p) => current = p,
+            None => break,
+        }
     }
 
     nodes
@@ -628,7 +658,7 @@ fn namespace(node: dom::XmlNode) -> Vec<dom::XmlNode> {
     let mut nodes = vec![];
 
     if let dom::XmlNode::Element(element) = node {
-        for ns in element.in_scope_namespace().unwrap() {
+        for ns in element.in_scope_namespace().unwrap_or_default() {
             nodes.push(ns.as_node());
         }
     }
@@ -636,13 +666,34 @@ fn namespace(node: dom::XmlNode) -> Vec<dom::XmlNode> {
     nodes
 }
 
+/// All nodes before the context node in document order, excluding its ancestors and
+/// excluding attribute and namespace nodes.
 fn preceding(node: dom::XmlNode) -> Vec<dom::XmlNode> {
     let mut nodes = vec![];
 
-    for p in preceding_sibling(node) {
-        let mut desc = descendant_and_self(p);
-        desc.reverse();
-        nodes.append(&mut desc);
+    let mut current = node;
+    if matches!(
+        current,
+        dom::XmlNode::Attribute(_) | dom::XmlNode::Namespace(_)
+    ) {
+        // The element of an attribute is an ancestor: what precedes it precedes the attribute.
+        match parent(&current) {
+            Some(element) => current = element,
+            None => return nodes,
+        }
+    }
+
+    loop {
+        for p in preceding_sibling(current.clone()) {
+            let mut desc = descendant_and_self(p);
+            desc.reverse();
+            nodes.append(&mut desc);
+        }
+
+        match parent(&current) {
+            Some(p) => current = p,
+            None => break,
+        }
     }
 
     nodes
